@@ -63,7 +63,7 @@ IsPush(op) == op.k \in PushKinds
 IsPop(op) == op.k = "pop"
 
 \* the bytes the Kafka protocol prescribes for one primitive call
-Enc(op) ==
+Enc0(op) ==
   CASE op.k = "i8" -> BE(op.v[1], 1)
     [] op.k = "i16" -> BE(op.v[1], 2)
     [] op.k = "i32" -> BE(op.v[1], 4)
@@ -85,6 +85,80 @@ Enc(op) ==
     [] op.k = "i64arr" -> BE(U(Max0(op.n)), 4) \o CatBE(op.v, 8, 1)
     [] op.k \in {"ci32arr", "nci32arr"} -> UVar(U(op.n + 1)) \o CatBE(op.v, 4, 1)   \* n = -1 (null): 0
     [] op.k = "tagged" -> <<0>>
+
+(* ------------------------------------------------------------------ alphabets of Codec.tla *)
+Sc(k, val) == [k |-> k, n |-> 0, v |-> <<val>>]
+Ln(k, n) == [k |-> k, n |-> n, v |-> <<>>]
+Ar(k, vs) == [k |-> k, n |-> Len(vs), v |-> vs]
+NilAr(k) == [k |-> k, n |-> -1, v |-> <<>>]
+M1 == N(1)
+Max8 == U(127)
+Min8 == N(128)
+E16 == U(258)
+Max16 == U(32767)
+Min16 == N(32768)
+E32 == <<0, 0, 258, 772>>
+Max32 == <<0, 0, 32767, 65535>>
+Min32 == <<65535, 65535, 32768, 0>>
+E64 == <<258, 772, 1286, 1800>>
+Max64 == <<32767, 65535, 65535, 65535>>
+Min64 == <<32768, 0, 0, 0>>
+MaxU64 == <<65535, 65535, 65535, 65535>>
+
+Wide ==
+  {Sc("i8", x) : x \in {M1, Zero, Max8, Min8}}
+  \cup {Sc("i16", x) : x \in {M1, Zero, E16, Max16, Min16}}
+  \cup {Sc("i32", x) : x \in {M1, Zero, E32, Max32, Min32}}
+  \cup {Sc("i64", x) : x \in {M1, Zero, E64, Max64, Min64}}
+  \cup {Sc("var", x) : x \in {M1, Zero, U(63), U(64), N(64), N(65), U(8192), Max64, Min64}}
+  \cup {Sc("uvar", x) : x \in {Zero, U(1), U(127), U(128), U(16383), U(16384), Max64, Min64, MaxU64}}
+  \cup {Ln("arrlen", x) : x \in {-1, 0, 1, 2}}
+  \cup {Ln("carrlen", x) : x \in {0, 1, 126, 127}}
+  \cup {Ln("bool", x) : x \in {0, 1}}
+  \cup {Ln("bytes", x) : x \in {-1, 0, 1, 3}}
+  \cup {Ln("varbytes", x) : x \in {-1, 0, 1, 63, 64}}
+  \cup {Ln("cbytes", x) : x \in {-1, 0, 1, 126, 127}}
+  \cup {Ln("raw", x) : x \in {0, 1, 63, 64}}
+  \cup {Ln("str", x) : x \in {0, 1, 3}}
+  \cup {Ln("nstr", x) : x \in {-1, 0, 2}}
+  \cup {Ln("cstr", x) : x \in {0, 1, 126, 127}}
+  \cup {Ln("ncstr", x) : x \in {-1, 0, 127}}
+  \cup {NilAr("strarr"), Ar("strarr", <<>>), Ar("strarr", <<U(1)>>), Ar("strarr", <<U(0), U(2)>>)}
+  \cup {NilAr("i32arr"), Ar("i32arr", <<>>), Ar("i32arr", <<Max32>>), Ar("i32arr", <<M1, E32>>)}
+  \cup {NilAr("i64arr"), Ar("i64arr", <<>>), Ar("i64arr", <<Min64, U(1)>>)}
+  \cup {NilAr("ci32arr"), Ar("ci32arr", <<>>), Ar("ci32arr", <<U(1), M1>>)}
+  \cup {NilAr("nci32arr"), Ar("nci32arr", <<>>), Ar("nci32arr", <<E32>>)}
+  \cup {Ln("tagged", 0)}
+
+Core ==
+  {Sc("i8", x) : x \in {M1, Min8}}
+  \cup {Sc("i16", x) : x \in {E16, Min16}}
+  \cup {Sc("i32", x) : x \in {M1, E32, Min32}}
+  \cup {Sc("i64", x) : x \in {E64, Max64}}
+  \cup {Sc("var", x) : x \in {M1, Zero, U(63), U(64), N(65), Min64}}
+  \cup {Sc("uvar", x) : x \in {U(127), U(128), MaxU64}}
+  \cup {Ln("arrlen", x) : x \in {-1, 2}}
+  \cup {Ln("carrlen", x) : x \in {0, 127}}
+  \cup {Ln("bool", 1)}
+  \cup {Ln("bytes", x) : x \in {-1, 0, 3}}
+  \cup {Ln("varbytes", x) : x \in {-1, 0, 64}}
+  \cup {Ln("cbytes", x) : x \in {0, 127}}
+  \cup {Ln("raw", x) : x \in {1, 63}}
+  \cup {Ln("str", x) : x \in {0, 3}}
+  \cup {Ln("nstr", -1)}
+  \cup {Ln("cstr", x) : x \in {126, 127}}
+  \cup {Ln("ncstr", -1)}
+  \cup {Ar("strarr", <<U(0), U(2)>>), Ar("i32arr", <<M1, E32>>), NilAr("i64arr"),
+        NilAr("nci32arr"), Ar("nci32arr", <<E32>>), Ln("tagged", 0)}
+
+\* deep nestings: few payloads around the one/two-byte boundary of a varint length
+Nest == {Ln("raw", 1), Ln("raw", 62), Sc("i8", M1)}
+
+
+\* Enc, tabulated once for the alphabets (TLC evaluates constant definitions once); any other op is computed
+AllOps == Wide \cup Core \cup Nest
+EncT == [op \in AllOps |-> Enc0(op)]
+Enc(op) == IF op \in AllOps THEN EncT[op] ELSE Enc0(op)
 
 \* putCompactInt32Array(nil) is an error in both encoders
 EncErr(op) == op.k = "ci32arr" /\ op.n = -1
@@ -135,7 +209,7 @@ PrepStep(p, op) ==
 \* wr = bytes written by the last step; crcs[site] = [poly, from, to] extent raw[from+1..to] of a popped CRC
 Zeros(n) == [i \in 1..n |-> 0]
 RealInit(total) == [raw |-> Zeros(total), off |-> 0, stack |-> <<>>, crcs |-> <<>>, wr |-> <<>>, panic |-> FALSE]
-Write(raw, at, bs) == [i \in 1..Len(raw) |-> IF i > at /\ i <= at + Len(bs) THEN bs[i - at] ELSE raw[i]]
+Write(raw, at, bs) == SubSeq(raw, 1, at) \o bs \o SubSeq(raw, at + Len(bs) + 1, Len(raw))   \* copy(raw[at:], bs), in bounds
 Poly(k) == IF k = "push_crc_ieee" THEN "ieee" ELSE "castagnoli"
 NoCrc == [poly |-> "", from |-> 0, to |-> 0]
 RealStep(r, op, lens) ==
